@@ -27,7 +27,7 @@ ASSUMPTIONS = [
 
 
 def gen_case(rng: random.Random, tier: str) -> dict:
-    g = gen.gen_program(rng, max_nodes=5, depth=2)
+    g = gen.gen_program(rng, max_nodes=5, depth=2, feats={**gen.gen_feats(rng), "gens": rng.random() < 0.3})
     inp = gen.program_inputs(rng, g, list_len=(0, 3))
     fns = gen.fn_nodes(g)
     faults = []
